@@ -133,7 +133,7 @@ theorem restore_snap_equiv (m : Machine) (hd : MDot m) (s : St) (hs : SnapOK m s
       (restored m s).hist = s.hist ∧ ∀ P, histGet (restored m s).hist P = histGet s.hist P := by
   have hh : (restored m s).hist = s.hist := restored_hist m hd s hs hdi
   refine ⟨restore_snap_core m hd s hs, ?_, hh, fun P => by rw [hh]⟩
-  exact ⟨(closeUp_perm m s.cfg hs.cfgClosed hs.cfgNodup).symm, hh.symm, hq.1, rfl, TraceEq.nil, rfl, rfl, hq.2, rfl⟩
+  exact ⟨(closeUp_perm m s.cfg hs.cfgClosed hs.cfgNodup).symm, hh.symm, hq.1, rfl, TraceEq.nil, rfl, rfl, hq.2, rfl, rfl⟩
 
 /-- **`_record_history` guarantees the order**: in every state a run reaches — `start()`, then any
     commands, either engine, any machine, any user code — every remembered list is in (depth, id) order -/
